@@ -50,11 +50,19 @@ Definition arg_read (e : expr) : option tr :=
 Definition fixed_read_dict (e : expr) : option string :=
   match e with ESub d (EStr k) => match self_attr d with Some a => if String.eqb a "_kwargs_fixed" then Some k else None | None => None end | _ => None end.
 
+(* list.append("name")   and   for i in range(self._f): [if latex: list.append(L % i) else:] list.append(P % i) *)
+Definition lname (e : expr) : bool := is_name "list" e || is_name "name_list" e.
+Definition name_of_dict (s : stmt) : option string :=
+  match s with
+  | SExpr (ECall (EAttr r m) [EStr n] []) => if lname r && String.eqb m "append" then Some n else None
+  | _ => None
+  end.
 (* ---- the readers, parametrised by the dialect: how this block spells  kwargs[K],  fixed[K]  and its conditions ---- *)
 Section Dialect.
 Variable cond_of : expr -> option (atom * bool).
 Variable kw_key : expr -> option string.
 Variable fixed_read : expr -> option string.
+Variable name_of : stmt -> option string.
 Definition is_inc (s : stmt) : bool := match s with SAug Add t (EInt 1) => is_name "i" t | _ => false end.
 Definition set_from_arg (s : stmt) : option (string * tr) :=
   match s with SAssign t v => match kw_key t, arg_read v with Some k, Some r => Some (k, r) | _, _ => None end | _ => None end.
@@ -159,13 +167,6 @@ Fixpoint k2a_of (fuel : nat) (ss : list stmt) : option (list (tree k2a_leaf)) :=
       | None => None end
   end end.
 
-(* list.append("name")   and   for i in range(self._f): [if latex: list.append(L % i) else:] list.append(P % i) *)
-Definition lname (e : expr) : bool := is_name "list" e || is_name "name_list" e.
-Definition name_of (s : stmt) : option string :=
-  match s with
-  | SExpr (ECall (EAttr r m) [EStr n] []) => if lname r && String.eqb m "append" then Some n else None
-  | _ => None
-  end.
 Definition fmt_name_of (j : string) (s : stmt) : option string :=
   match s with
   | SExpr (ECall (EAttr r m) [EBin Mod (EStr p) (EName j')] []) => if lname r && String.eqb m "append" && String.eqb j j' then Some p else None
@@ -236,7 +237,7 @@ Fixpoint lnames_of (fuel : nat) (ss : list stmt) : option (list (tree lname_leaf
 End Dialect.
 
 Definition read_block (fa fk fn : fundef) : option block :=
-  match a2k_of cond_of_dict kw_key_dict fixed_read_dict 200 (f_body fa), k2a_of cond_of_dict kw_key_dict 200 (f_body fk), names_of cond_of_dict 200 (f_body fn), lnames_of cond_of_dict 200 (f_body fn) with
+  match a2k_of cond_of_dict kw_key_dict fixed_read_dict 200 (f_body fa), k2a_of cond_of_dict kw_key_dict 200 (f_body fk), names_of cond_of_dict name_of_dict 200 (f_body fn), lnames_of cond_of_dict name_of_dict 200 (f_body fn) with
   | Some a, Some k, Some n, Some l => Some (Block a k n l)
   | _, _, _, _ => None
   end.
